@@ -4,6 +4,7 @@
    tables regenerated from tangelo/linq/gate.py, circuit.py: Gen.GateTables. *)
 From Coq Require Import String ZArith List Bool.
 From Tangelo Require Import Linq.GateModel Linq.CircuitModel Linq.History Linq.CircuitProofs Linq.LinqZ.
+From Tangelo Require Import Linq.DepthProofs.
 From Gen Require Import GateTables.
 Import ListNotations.
 Open Scope string_scope.
@@ -65,6 +66,23 @@ Theorem C11_add_gate_range_iff :
 Proof. exact add_gate_range_iff. Qed.
 Print Assumptions C11_add_gate_range_iff.
 
+(* 7. Circuit.depth (the "moments" fold of the source), for EVERY circuit over any angle type and any
+      index lists: it is the largest LEVEL, where the level of a gate is 1 + the largest level of an
+      earlier gate sharing a qubit with it (1 if there is none) ... *)
+Theorem C11_depth_is_max_level :
+  forall Ang (c : circ Ang), depth Ang c = depth_spec Ang (cgates Ang c).
+Proof. exact depth_is_max_level. Qed.
+Print Assumptions C11_depth_is_max_level.
+
+(* ... equivalently the length of a longest chain: no subsequence of the gate list in which every gate
+   shares a qubit with its predecessor is longer than the reported depth, and one has exactly that length. *)
+Theorem C11_depth_is_longest_chain :
+  forall Ang (c : circ Ang),
+    (forall s, subseq s (cgates Ang c) -> linked Ang s -> (Z.of_nat (length s) <= depth Ang c)%Z)
+    /\ (exists s, subseq s (cgates Ang c) /\ linked Ang s /\ Z.of_nat (length s) = depth Ang c).
+Proof. exact depth_is_longest_chain. Qed.
+Print Assumptions C11_depth_is_longest_chain.
+
 (* ---- non-vacuity: a concrete non-trivial history, its final store, and the invariant on it ---- *)
 Definition ex_ops : list (op Z) :=
   [ ONew [G "H" [0%Z] None PNone false; G "CNOT" [1%Z] (Some [0%Z]) PNone false;
@@ -95,3 +113,11 @@ Example C11_merge_rotations_asis_mutates_input :
     /\ merge_rotations_asis Z Z.add (zeqmod eq_modulus_units eq_modulus_long_units) gtables c = Ok (c1, r)
     /\ metadata_ok Z c = true /\ metadata_ok Z c1 = false.
 Proof. do 3 eexists. vm_compute. repeat split. Qed.
+
+(* depth on a concrete circuit: H0, X3 in moment 1, CNOT(1;0) in 2, RZ1 and CNOT(3;2) ... : levels 1 2 3 1 2 *)
+Example C11_depth_example :
+  exists c, build Z gtables [G "H" [0%Z] None PNone false; G "CNOT" [1%Z] (Some [0%Z]) PNone false;
+                             G "RZ" [1%Z] None (PNum 3%Z) false; G "X" [3%Z] None PNone false;
+                             G "CNOT" [3%Z] (Some [2%Z]) PNone false] None = Ok c
+            /\ depth Z c = 3%Z /\ map snd (leveled Z (cgates Z c)) = [1; 2; 3; 1; 2]%Z.
+Proof. eexists. vm_compute. repeat split. Qed.
